@@ -27,6 +27,11 @@ func parseLen(p []byte) (int, error) {
 		return -1, nil
 	}
 
+	// same acceptance as Redis: no leading zeros, and no more digits than fit in an int
+	if len(p) > 18 || (len(p) > 1 && p[0] == '0') {
+		return -1, codec.ErrInvalidResp
+	}
+
 	var n int
 	for _, b := range p {
 		n *= 10
